@@ -26,38 +26,68 @@ def tItems (k v : Ty) : Ty := .cls s_ItemsView (.cons k (.cons v .nil))
 def tPair (k v : Ty) : Ty := .cls s_Pair (.cons k (.cons v .nil))
 
 mutual
-/-- the inferred type `T` denotes the value `v` -/
-inductive Conf : Val → Ty → Prop
-  | int (n : Int) : Conf (.int n) .int
-  | float (x : Float) : Conf (.float x) .float
-  | bool (b : Bool) : Conf (.bool b) .bool
-  | str (s : Str) : Conf (.str s) .str
-  | none : Conf .none .none
-  | list {vs : List Val} {t : Ty} : ConfAll vs t → Conf (.list vs) (.list t)
-  | dict {ks vs : List Val} {k v : Ty} : ConfAll ks k → ConfAll vs v → Conf (.dict ks vs) (.dict k v)
-  | tuple {vs : List Val} {ts : Tys} : ConfZip vs ts → Conf (.tuple vs) (.tuple ts)
-  | union {v : Val} {t : Ty} {ts : Tys} : Tys.mem t ts = true → Conf v t → Conf v (.union ts)
-  | iter {vs : List Val} {t : Ty} : ConfAll vs t → Conf (.list vs) (tIter t)
-  | items {vs : List Val} {k v : Ty} : ConfAll vs (tPair k v) → Conf (.list vs) (tItems k v)
-  | pair {a b : Val} {k v : Ty} : Conf a k → Conf b v → Conf (.tuple [a, b]) (tPair k v)
-inductive ConfAll : List Val → Ty → Prop
-  | nil {t : Ty} : ConfAll [] t
-  | cons {v : Val} {vs : List Val} {t : Ty} : Conf v t → ConfAll vs t → ConfAll (v :: vs) t
-inductive ConfZip : List Val → Tys → Prop
-  | nil : ConfZip [] .nil
-  | cons {v : Val} {vs : List Val} {t : Ty} {ts : Tys} : Conf v t → ConfZip vs ts → ConfZip (v :: vs) (.cons t ts)
+/-- the inferred type `T` denotes the value `v` (`ct`: the user classes — an instance of a class is denoted by the class and by
+    each of its bases, and its instance dict holds a conforming value for every declared instance variable) -/
+inductive Conf (ct : ClassTable) : Val → Ty → Prop
+  | int (n : Int) : Conf ct (.int n) .int
+  | float (x : Float) : Conf ct (.float x) .float
+  | bool (b : Bool) : Conf ct (.bool b) .bool
+  | str (s : Str) : Conf ct (.str s) .str
+  | none : Conf ct .none .none
+  | list {vs : List Val} {t : Ty} : ConfAll ct vs t → Conf ct (.list vs) (.list t)
+  | dict {ks vs : List Val} {k v : Ty} : ConfAll ct ks k → ConfAll ct vs v → Conf ct (.dict ks vs) (.dict k v)
+  | tuple {vs : List Val} {ts : Tys} : ConfZip ct vs ts → Conf ct (.tuple vs) (.tuple ts)
+  | union {v : Val} {t : Ty} {ts : Tys} : Tys.mem t ts = true → Conf ct v t → Conf ct v (.union ts)
+  | iter {vs : List Val} {t : Ty} : ConfAll ct vs t → Conf ct (.list vs) (tIter t)
+  | items {vs : List Val} {k v : Ty} : ConfAll ct vs (tPair k v) → Conf ct (.list vs) (tItems k v)
+  | pair {a b : Val} {k v : Ty} : Conf ct a k → Conf ct b v → Conf ct (.tuple [a, b]) (tPair k v)
+  | obj {c d : Str} {ns : List Str} {vs : List Val} : d ∈ chainOf ct c →
+      (∀ e a T, e ∈ chainOf ct c → memberOf ct e a = some ⟨a, .field, T⟩ → ConfField ct ns vs a T) →
+      Conf ct (.obj c ns vs) (.cls d .nil)
+inductive ConfAll (ct : ClassTable) : List Val → Ty → Prop
+  | nil {t : Ty} : ConfAll ct [] t
+  | cons {v : Val} {vs : List Val} {t : Ty} : Conf ct v t → ConfAll ct vs t → ConfAll ct (v :: vs) t
+inductive ConfZip (ct : ClassTable) : List Val → Tys → Prop
+  | nil : ConfZip ct [] .nil
+  | cons {v : Val} {vs : List Val} {t : Ty} {ts : Tys} : Conf ct v t → ConfZip ct vs ts → ConfZip ct (v :: vs) (.cons t ts)
+/-- the instance dict `(ns, vs)` holds a value denoted by `T` under the name `a` -/
+inductive ConfField (ct : ClassTable) : List Str → List Val → Str → Ty → Prop
+  | mk {ns : List Str} {vs : List Val} {a : Str} {T : Ty} {x : Val} : fieldGet ns vs a = some x → Conf ct x T → ConfField ct ns vs a T
 end
 
 /-- pointwise conformance of argument values to argument types -/
-inductive ConfList : List Val → List Ty → Prop
-  | nil : ConfList [] []
-  | cons {v : Val} {vs : List Val} {t : Ty} {ts : List Ty} : Conf v t → ConfList vs ts → ConfList (v :: vs) (t :: ts)
+inductive ConfList (ct : ClassTable) : List Val → List Ty → Prop
+  | nil : ConfList ct [] []
+  | cons {v : Val} {vs : List Val} {t : Ty} {ts : List Ty} : Conf ct v t → ConfList ct vs ts → ConfList ct (v :: vs) (t :: ts)
 
 /-- `ρ ⊨ Γ` -/
-def EnvConf (ρ : VEnv) (Γ : Env) : Prop :=
-  ∀ x T, lookup x Γ = some T → ∃ v, lookup x ρ = some v ∧ Conf v T
+def EnvConf (ct : ClassTable) (ρ : VEnv) (Γ : Env) : Prop :=
+  ∀ x T, lookup x Γ = some T → ∃ v, lookup x ρ = some v ∧ Conf ct v T
+
+def s_next : Str := ['_', '_', 'n', 'e', 'x', 't', '_', '_']
+
+/-- What the theorems assume of the user program's own code (`World`): every constructor, method, property / class-variable
+    read and `__next__` result conforms to the DECLARED type — each method's own typing obligation, seen from every class of
+    the receiver's base chain (a well-typed override keeps the declared return type). -/
+structure WorldConf (ct : ClassTable) (W : World) : Prop where
+  /-- `None` is a keyword: no user class has that name (`T | None` is recognised by the class name) -/
+  no_None : findClass ct s_None = none
+  new_ok : ∀ c args v, (findClass ct c).isSome → W.new c args = .ok v → Conf ct v (.cls c .nil)
+  call_ok : ∀ v c m args mem x, Conf ct v (.cls c .nil) → memberOf ct c m = some mem →
+    (mem.kind = .method ∨ mem.kind = .classMethod) → W.call v m args = .ok x → Conf ct x mem.ty
+  classAttr_ok : ∀ v c a mem x, Conf ct v (.cls c .nil) → memberOf ct c a = some mem →
+    (mem.kind = .classVar ∨ mem.kind = .property) → W.classAttr v a = .ok x → Conf ct x mem.ty
+  /-- an entry of the instance dict under the name of a class variable / property (assigned through `self.a = …` somewhere)
+      conforms to the declared type as well -/
+  shadow_ok : ∀ c0 ns vs c a mem x, Conf ct (.obj c0 ns vs) (.cls c .nil) → memberOf ct c a = some mem →
+    (mem.kind = .classVar ∨ mem.kind = .property) → fieldGet ns vs a = some x → Conf ct x mem.ty
+  nexts_ok : ∀ it c mem l, Conf ct it (.cls c .nil) → memberOf ct c s_next = some mem → mem.kind = .method →
+    W.nexts it = .ok l → ∀ x ∈ l, Conf ct x mem.ty
 
 def EnvNoUnknown (Γ : Env) : Prop := ∀ x T, lookup x Γ = some T → T.noUnknown = true
+
+/-- the declared types of the user classes contain no `Unknown` -/
+def CtNoUnknown (ct : ClassTable) : Prop := ∀ c a mem, memberOf ct c a = some mem → mem.ty.noUnknown = true
 
 /-! ## CPython's result types -/
 
@@ -205,10 +235,10 @@ def unaryRows : List (Ty × UOp × Ty) :=
 /-! ## the subsets -/
 
 /-- inference from the fresh session state (the subsets below never touch the state) -/
-def inferT (Γ : Env) (e : Expr) : Except Err Ty := (infer Γ e false).1
-def inferListT (Γ : Env) (es : Exprs) : Except Err (List Ty) := (inferList Γ es false).1
-def inferChainT (Γ : Env) (c : Chain) : Except Err (List (BOp × Ty)) := (inferChain Γ c false).1
-def inferPairsT (Γ : Env) (ps : Pairs) : Except Err (List (Ty × Ty)) := (inferPairs Γ ps false).1
+def inferT (ct : ClassTable) (Γ : Env) (e : Expr) : Except Err Ty := (infer ct Γ e false).1
+def inferListT (ct : ClassTable) (Γ : Env) (es : Exprs) : Except Err (List Ty) := (inferList ct Γ es false).1
+def inferChainT (ct : ClassTable) (Γ : Env) (c : Chain) : Except Err (List (BOp × Ty)) := (inferChain ct Γ c false).1
+def inferPairsT (ct : ClassTable) (Γ : Env) (ps : Pairs) : Except Err (List (Ty × Ty)) := (inferPairs ct Γ ps false).1
 
 def tyOk (r : Except Err Ty) (p : Ty → Bool) : Bool :=
   match r with
@@ -218,11 +248,11 @@ def tyOk (r : Except Err Ty) (p : Ty → Bool) : Bool :=
 def factorOk (op : UOp) (t : Ty) : Bool := (pyFactorTy op t).isSome
 
 /-- every step of `each_binary_operator` is accepted by the stub table with CPython's result type -/
-def stepsOk : Ty → List (BOp × Ty) → Bool
+def stepsOk (ct : ClassTable) : Ty → List (BOp × Ty) → Bool
   | _, [] => true
   | l, (op, r) :: rest =>
-    match tryStep l op r with
-    | some t => decide (pyBinTy op l r = some t) && stepsOk t rest
+    match tryStep ct l op r with
+    | some t => decide (pyBinTy op l r = some t) && stepsOk ct t rest
     | none => false
 
 def indexShapeOk (u : Ty) (k : Expr) : Bool :=
@@ -241,23 +271,64 @@ def sliceShapeOk (u : Ty) (lo hi : Expr) : Bool :=
 
 def sliceOk (t : Ty) (lo hi : Expr) : Bool := sliceShapeOk (stripNullable t) lo hi
 
-def callOk (tr : Ty) (m : Str) (ts : List Ty) : Bool :=
+/-- the declared return type of a function member of a user class, as `on_func_call` answers it (no templates to resolve) -/
+def userCallTy (ct : ClassTable) (tr : Ty) (m : Str) (ts : List Ty) : Option Ty :=
+  match tr with
+  | .cls c .nil =>
+    (match memberOf ct c m with
+     | some mem =>
+       if (mem.kind = .method || mem.kind = .classMethod) && (findIn Dunder.methods c m).isNone then
+         (match userMethod ct c m with
+          | some row => if returnsOf row tr (Tys.ofList ts) = mem.ty then some mem.ty else none
+          | none => none)
+       else none
+     | none => none)
+  | _ => none
+
+def callOk (ct : ClassTable) (tr : Ty) (m : Str) (ts : List Ty) : Bool :=
   stripNullable tr = tr &&
-  match findMethod tr.className m with
-  | some row => pyMethodTy tr (methodOf m) ts = some (returnsOf row tr (Tys.ofList ts))
+  match findMethod ct tr.className m with
+  | some row =>
+    decide (pyMethodTy tr (methodOf m) ts = some (returnsOf row tr (Tys.ofList ts))) ||
+    decide (userCallTy ct tr m ts = some (returnsOf row tr (Tys.ofList ts)))
   | none => false
 
-def fcallOk (f : Str) (ts : List Ty) : Bool :=
-  match findFunc f with
-  | some row => pyFuncTy (funcOf f) ts = some (returnsOfFunc row (Tys.ofList ts))
+def fcallOk (ct : ClassTable) (f : Str) (ts : List Ty) : Bool :=
+  match findFunc ct f with
+  | some row =>
+    decide (pyFuncTy (funcOf f) ts = some (returnsOfFunc row (Tys.ofList ts))) ||
+    (funcOf f = .other && (findClass ct f).isSome && decide (returnsOfFunc row (Tys.ofList ts) = .cls f .nil))
   | none => false
+
+/-- `r.a` on an instance of a user class: instance variable, class variable or property -/
+def attrOk (ct : ClassTable) (tr : Ty) (a : Str) : Bool :=
+  match stripNullable tr with
+  | .cls c .nil =>
+    (match memberOf ct c a with
+     | some mem => mem.name = a && (mem.kind = .field || mem.kind = .classVar || mem.kind = .property)
+     | none => false)
+  | _ => false
 
 /-- the item type CPython's iteration yields for a source of the given type -/
-def pyIterTy : Ty → Option Ty
+def pyIterTy (ct : ClassTable) : Ty → Option Ty
   | .list t => some t
   | .dict k _ => some k
   | .cls n (.cons t .nil) => if n = s_Iterator then some t else none
   | .cls n (.cons k (.cons v .nil)) => if n = s_ItemsView then some (tPair k v) else none
+  | .cls c .nil =>
+    -- a user class: `iter(obj)` is `obj.__iter__()`; the items are what `__next__` of THAT object returns (classic protocol:
+    -- `__iter__` is declared to return the class itself), or the items of the builtin iterator it is declared to return
+    (match memberOf ct c s_iter with
+     | some mi =>
+       if mi.kind ≠ .method then none
+       else (match mi.ty with
+         | .cls n (.cons t .nil) => if n = s_Iterator then some t else none
+         | .cls c' .nil =>
+           (match memberOf ct c' s_next with
+            | some mn => if mn.kind = .method then some mn.ty else none
+            | none => none)
+         | _ => none)
+     | none => none)
   | _ => none
 
 def varsOk (vars : List Str) (elem : Ty) : Bool :=
@@ -270,81 +341,82 @@ def varsOk (vars : List Str) (elem : Ty) : Bool :=
   | _ => false
 
 /-- the environment extension of a `for` clause, when source and targets are inside the subset -/
-def compEnv (vars : List Str) (tsrc : Ty) : Option Env :=
-  match iterates tsrc with
-  | .ok elem => if pyIterTy tsrc = some elem && varsOk vars elem then some (bindVars vars elem) else none
+def compEnv (ct : ClassTable) (vars : List Str) (tsrc : Ty) : Option Env :=
+  match iterates ct tsrc with
+  | .ok elem => if pyIterTy ct tsrc = some elem && varsOk vars elem then some (bindVars vars elem) else none
   | .error _ => none
 
 mutual
-def wt (Γ : Env) : Expr → Bool
+def wt (ct : ClassTable) (Γ : Env) : Expr → Bool
   | .int _ | .float _ | .str _ | .true_ | .false_ | .none_ | .empty_ => true
   | .var x => (match lookup x Γ with | some t => t ≠ noSuchAttr | none => false)
-  | .factor op e => wt Γ e && tyOk (inferT Γ e) (factorOk op)
-  | .not_ e => wt Γ e
+  | .factor op e => wt ct Γ e && tyOk (inferT ct Γ e) (factorOk op)
+  | .not_ e => wt ct Γ e
   | .bin e rest =>
-    wt Γ e && wtChain Γ rest &&
-    (match inferT Γ e, inferChainT Γ rest with
-     | .ok l, .ok ops => stepsOk l ops
+    wt ct Γ e && wtChain ct Γ rest &&
+    (match inferT ct Γ e, inferChainT ct Γ rest with
+     | .ok l, .ok ops => stepsOk ct l ops
      | _, _ => false)
-  | .cmp e rest => wt Γ e && wtChain Γ rest
-  | .and_ es => wtList Γ es && (match inferListT Γ es with | .ok ts => ts.all (· = .bool) | .error _ => false)
-  | .or_ es => wtList Γ es && (match inferListT Γ es with | .ok ts => ts.all (· = .bool) | .error _ => false)
-  | .tern a c b => wt Γ a && wt Γ c && wt Γ b
+  | .cmp e rest => wt ct Γ e && wtChain ct Γ rest
+  | .and_ es => wtList ct Γ es && (match inferListT ct Γ es with | .ok ts => ts.all (· = .bool) | .error _ => false)
+  | .or_ es => wtList ct Γ es && (match inferListT ct Γ es with | .ok ts => ts.all (· = .bool) | .error _ => false)
+  | .tern a c b => wt ct Γ a && wt ct Γ c && wt ct Γ b
   | .list es =>
-    wtList Γ es &&
-    (match inferListT Γ es with
+    wtList ct Γ es &&
+    (match inferListT ct Γ es with
      | .ok (t :: ts) => ts.all (· = t) && t.className ≠ s_Unknown
      | _ => false)
   | .dict kvs =>
-    wtPairs Γ kvs &&
-    (match inferPairsT Γ kvs with
+    wtPairs ct Γ kvs &&
+    (match inferPairsT ct Γ kvs with
      | .ok (kv :: rest) => rest.all (· = kv) && kv.2.className ≠ s_Unknown
      | _ => false)
-  | .tuple es => wtList Γ es
-  | .index r k => wt Γ r && wt Γ k && tyOk (inferT Γ r) (fun t => indexOk t k)
-  | .slice r lo hi => wt Γ r && wt Γ lo && wt Γ hi && tyOk (inferT Γ r) (fun t => sliceOk t lo hi)
-  | .group e => wt Γ e
+  | .tuple es => wtList ct Γ es
+  | .index r k => wt ct Γ r && wt ct Γ k && tyOk (inferT ct Γ r) (fun t => indexOk t k)
+  | .slice r lo hi => wt ct Γ r && wt ct Γ lo && wt ct Γ hi && tyOk (inferT ct Γ r) (fun t => sliceOk t lo hi)
+  | .group e => wt ct Γ e
+  | .attr r a => wt ct Γ r && tyOk (inferT ct Γ r) (fun t => attrOk ct t a)
   | .call r m args =>
-    wt Γ r && wtList Γ args &&
-    (match inferT Γ r, inferListT Γ args with
-     | .ok tr, .ok ts => callOk tr m ts
+    wt ct Γ r && wtList ct Γ args &&
+    (match inferT ct Γ r, inferListT ct Γ args with
+     | .ok tr, .ok ts => callOk ct tr m ts
      | _, _ => false)
   | .fcall f args =>
-    (lookup f Γ).isNone && wtList Γ args &&
-    (match inferListT Γ args with
-     | .ok ts => fcallOk f ts
+    (lookup f Γ).isNone && wtList ct Γ args &&
+    (match inferListT ct Γ args with
+     | .ok ts => fcallOk ct f ts
      | .error _ => false)
   | .listComp proj vars src cond =>
-    wt Γ src &&
-    (match inferT Γ src with
+    wt ct Γ src &&
+    (match inferT ct Γ src with
      | .ok tsrc =>
-       (match compEnv vars tsrc with
-        | some bs => wt (bs ++ Γ) proj && wt (bs ++ Γ) cond
+       (match compEnv ct vars tsrc with
+        | some bs => wt ct (bs ++ Γ) proj && wt ct (bs ++ Γ) cond
         | none => false)
      | .error _ => false)
   | .dictComp k v vars src cond =>
-    wt Γ src &&
-    (match inferT Γ src with
+    wt ct Γ src &&
+    (match inferT ct Γ src with
      | .ok tsrc =>
-       (match compEnv vars tsrc with
-        | some bs => wt (bs ++ Γ) k && wt (bs ++ Γ) v && wt (bs ++ Γ) cond
+       (match compEnv ct vars tsrc with
+        | some bs => wt ct (bs ++ Γ) k && wt ct (bs ++ Γ) v && wt ct (bs ++ Γ) cond
         | none => false)
      | .error _ => false)
-def wtList (Γ : Env) : Exprs → Bool
+def wtList (ct : ClassTable) (Γ : Env) : Exprs → Bool
   | .nil => true
-  | .cons e es => wt Γ e && wtList Γ es
-def wtChain (Γ : Env) : Chain → Bool
+  | .cons e es => wt ct Γ e && wtList ct Γ es
+def wtChain (ct : ClassTable) (Γ : Env) : Chain → Bool
   | .nil => true
-  | .cons _ e rest => wt Γ e && wtChain Γ rest
-def wtPairs (Γ : Env) : Pairs → Bool
+  | .cons _ e rest => wt ct Γ e && wtChain ct Γ rest
+def wtPairs (ct : ClassTable) (Γ : Env) : Pairs → Bool
   | .nil => true
-  | .cons k v rest => wt Γ k && wt Γ v && wtPairs Γ rest
+  | .cons k v rest => wt ct Γ k && wt ct Γ v && wtPairs ct Γ rest
 end
 
 /-- the property's subset -/
-abbrev Core (Γ : Env) (e : Expr) : Prop := wt Γ e = true
+abbrev Core (ct : ClassTable) (Γ : Env) (e : Expr) : Prop := wt ct Γ e = true
 /-- (historical name of the agreement subset; it coincides with `Core` since the repairs) -/
-abbrev WellTyped (Γ : Env) (e : Expr) : Prop := Core Γ e
+abbrev WellTyped (ct : ClassTable) (Γ : Env) (e : Expr) : Prop := Core ct Γ e
 
 /-- a value whose run-time type is determined: no empty container, no mixed container inside -/
 def DetV (v : Val) : Prop := (typeOf v).plain = true
